@@ -101,6 +101,15 @@ def sdk_snapshot(d):
 
 def write_case(i, spec):
     d = slot_dir(i)
+    # defensive: a previous user of the slot (C10's cargo-feature history) may have been killed half-way
+    write_if_changed(os.path.join(d, "app", "Cargo.toml"), e2e_env.APP_TOML)
+    try:
+        with open(os.path.join(d, "sdk", "Cargo.toml")) as f:
+            if "extdep" in f.read():
+                raise FileNotFoundError
+    except FileNotFoundError:
+        write_if_changed(os.path.join(d, "sdk", "Cargo.toml"), PLACEHOLDER_SDK_TOML)
+        write_if_changed(os.path.join(d, "sdk", "src", "lib.rs"), "")
     src = render.render_app(spec)
     write_if_changed(os.path.join(d, "app", "src", "lib.rs"), src)
     write_if_changed(os.path.join(d, "driver", "src", "boot.rs"), render.BOOT_RS)
